@@ -59,13 +59,14 @@ static void place(double *lat0, double *lng0, int i) {
     else { *lat0 = asin(2 * vt_rand01() - 1) * 0.85; *lng0 = (vt_rand01() - 0.5) * 2 * M_PI; }
 }
 /* returns 0 on success */
+static int g_force_kind = -1;
 static int gen_poly(Poly *P, int i, int quick) {
     memset(P, 0, sizeof *P);
     double lat0, lng0; place(&lat0, &lng0, i);
     static const double TARGETS[] = {2, 8, 30, 30, 120, 120, 400, 1500};
     double target = TARGETS[vt_randn(quick ? 7 : 8)];
     double r = exp(log(2e-6) + vt_rand01() * (log(0.25) - log(2e-6)));
-    int kind = (int)vt_randn(10); int nh = 0; int n = 4; int rev = (int)vt_randn(2);
+    int kind = g_force_kind >= 0 ? g_force_kind : (int)vt_randn(10); int nh = 0; int n = 4; int rev = (int)vt_randn(2);
     P->g.holes = P->holes;
     switch (kind) {
         case 0: case 1: P->kind = "convex"; n = 3 + (int)vt_randn(10); if (make_loop(P->outer, n, lat0, lng0, r, 0.85, 0.4 + 0.6 * vt_rand01(), vt_rand01() * 6.28, rev)) return 1; break;
@@ -127,14 +128,19 @@ static void fill_event(Poly *P, int maxcand) {
     for (int k = 0; k < 5; k++) {
         fprintf(vt_out, "%s{\"rmax\":%u,\"max\":", k ? "," : "", rmx[k]); big_or(mx[k], rmx[k]); fprintf(vt_out, ",\"rc\":%u,\"g\":%d,\"out\":", rc[k], gok[k]); vt_words_nz(out[k], mx[k]); fputc('}', vt_out);
     }
+    HSet leg; hs_init(&leg, (size_t)cnt[0] + 8); for (int64_t i = 0; i < mx[0]; i++) if (out[0][i]) hs_add(&leg, out[0][i]);
+    long legacyExtra = 0;
     fputs("],\"cand\":[", vt_out); int first = 1;
     for (size_t i = 0; i < cs.cap; i++) if (cs.t[i]) {
         H3Index h = cs.t[i]; CellObs o = {2, 2, 2, 2};
         if (isValidCell(h)) { CellShape S; if (!cellshape_from(h, &PP.l[0], &S)) { S.centre = p2_align(&PP.l[0], S.centre); o = cell_vs_poly(&PP, &S); cellshape_free(&S); } }
         fprintf(vt_out, "%s{\"h\":", first ? "" : ","); first = 0; vt_word(h); fprintf(vt_out, ",\"o\":[%d,%d,%d,%d]}", o.cin, o.vin, o.wi, o.sh);
         n_cand++; if (o.cin == 2) n_amb++;
+        if (o.cin == 0) { size_t q = (size_t)((h * 0x9E3779B97F4A7C15ULL) >> 20) & (leg.cap - 1); while (leg.t[q]) { if (leg.t[q] == h) { legacyExtra++; break; } q = (q + 1) & (leg.cap - 1); } }
     }
-    fputs("]}\n", vt_out); n_ev++;
+    /* observation used to identify the known finding of the legacy fill: does it return any cell whose centre is clearly outside? */
+    fprintf(vt_out, "],\"legacyExtra\":%ld}\n", legacyExtra); hs_free(&leg); n_ev++;
+    if (getenv("VERIF_DUMP_POLY") && cnt[0] < cnt[1]) { fprintf(stderr, "POLY res=%d n=%d:", res, g->geoloop.numVerts); for (int i = 0; i < g->geoloop.numVerts; i++) fprintf(stderr, " {%.17g, %.17g},", g->geoloop.verts[i].lat, g->geoloop.verts[i].lng); fputc('\n', stderr); }
     /* capacity below the result: E_MEMORY_BOUNDS without overrun (C15) */
     for (int m = 0; m < 4; m++) if (!rc[m + 1] && cnt[m + 1] > 0) {
         int64_t caps[5] = {cnt[m + 1] - 1, 0, cnt[m + 1], 0, 0}; int ncap = cnt[m + 1] > 1 ? 3 : 2; if (cnt[m + 1] == 1) { caps[1] = 1; }
@@ -196,6 +202,11 @@ static int gen_corner_poly(Poly *P, int ares, int tres, int mode) {
 
 int main(int argc, char **argv) {
     if (argc >= 5 && !strcmp(argv[1], "bbox")) { vt_seed(strtoull(argv[3], 0, 10) + 77); return bbox_main(argv[2][0] == 'q', argv[4]); }
+    if (argc >= 5 && !strcmp(argv[1], "needles")) {       /* needle-thin polygons only (the regime of the legacy fill's known finding) */
+        int quick = argv[2][0] == 'q'; vt_seed(strtoull(argv[3], 0, 10) + 707); vt_open(argv[4]); getPentagons(0, PENT0); g_force_kind = 4;
+        for (int i = 0; i < (quick ? 120 : 3000); i++) { Poly P; if (gen_poly(&P, quick ? 8 * i + 1 : i, 1)) continue; fill_event(&P, quick ? 500 : 3000); }   /* quick: all on the antimeridian */
+        vt_close(); return 0;
+    }
     if (argc < 5 || strcmp(argv[1], "run")) return 2;
     int quick = argv[2][0] == 'q'; vt_seed(strtoull(argv[3], 0, 10) + 7); vt_open(argv[4]);
     getPentagons(0, PENT0);
